@@ -16,6 +16,8 @@ import (
 	"math"
 	"math/big"
 	"os"
+	"reflect"
+	"sort"
 	"strings"
 
 	sproto "go.starlark.net/lib/proto"
@@ -112,7 +114,71 @@ func (b *msgBuilder) addMap(name string, kt descriptorpb.FieldDescriptorProto_Ty
 var (
 	tDesc, nodeDesc protoreflect.MessageDescriptor
 	eDesc, fDesc    protoreflect.EnumDescriptor
+	xFile           protoreflect.FileDescriptor // proto2 file with an extendable message X and extensions
+	xDesc           protoreflect.MessageDescriptor
+	node2Desc       protoreflect.MessageDescriptor // look-alike: c20.Node from ANOTHER pool, different definition
+	e2Desc          protoreflect.EnumDescriptor    // look-alike: c20.E from another pool (B = 2)
 )
+
+// buildExtras: (1) a proto2 file with an extendable message and scalar / message / repeated
+// extensions; (2) a second descriptor pool declaring c20.Node and c20.E again, differently.
+func buildExtras() {
+	opt := descriptorpb.FieldDescriptorProto_LABEL_OPTIONAL.Enum()
+	rep := descriptorpb.FieldDescriptorProto_LABEL_REPEATED.Enum()
+	ext := func(name string, num int32, typ descriptorpb.FieldDescriptorProto_Type, label *descriptorpb.FieldDescriptorProto_Label, tn string) *descriptorpb.FieldDescriptorProto {
+		f := &descriptorpb.FieldDescriptorProto{Name: proto.String(name), Number: proto.Int32(num), Type: typ.Enum(), Label: label, Extendee: proto.String(".c20x.X")}
+		if tn != "" {
+			f.TypeName = proto.String(tn)
+		}
+		return f
+	}
+	const ti64 = descriptorpb.FieldDescriptorProto_TYPE_INT64
+	const tstr = descriptorpb.FieldDescriptorProto_TYPE_STRING
+	const tmsg = descriptorpb.FieldDescriptorProto_TYPE_MESSAGE
+	X := &descriptorpb.DescriptorProto{
+		Name: proto.String("X"),
+		Field: []*descriptorpb.FieldDescriptorProto{
+			{Name: proto.String("v"), Number: proto.Int32(1), Type: ti64.Enum(), Label: opt},
+			{Name: proto.String("s"), Number: proto.Int32(2), Type: tstr.Enum(), Label: opt},
+		},
+		ExtensionRange: []*descriptorpb.DescriptorProto_ExtensionRange{{Start: proto.Int32(100), End: proto.Int32(200)}},
+	}
+	fd := &descriptorpb.FileDescriptorProto{
+		Name: proto.String("c20x.proto"), Package: proto.String("c20x"), Syntax: proto.String("proto2"),
+		MessageType: []*descriptorpb.DescriptorProto{X},
+		Extension: []*descriptorpb.FieldDescriptorProto{
+			ext("ext_s", 100, tstr, opt, ""), ext("ext_i", 101, ti64, opt, ""), ext("ext_m", 102, tmsg, opt, ".c20x.X"),
+			ext("ext_r", 103, ti64, rep, ""), ext("ext_rm", 104, tmsg, rep, ".c20x.X"),
+		},
+	}
+	f, err := protodesc.NewFile(fd, nil)
+	if err != nil {
+		panic(err)
+	}
+	xFile, xDesc = f, f.Messages().ByName("X")
+
+	N := &msgBuilder{full: "c20.Node", m: &descriptorpb.DescriptorProto{Name: proto.String("Node")}}
+	N.add("v", tstr, "", false) // string where the real Node declares int64
+	N.add("s", ti64, "", false) // int64 where the real Node declares string
+	N.add("sub", tmsg, ".c20.Node", false)
+	N.add("ri", ti64, "", true)
+	N.add("rm", tmsg, ".c20.Node", true)
+	N.addMap("mi", tstr, ti64, "")
+	N.addMap("mm", tstr, tmsg, ".c20.Node")
+	ev := func(n string, i int32) *descriptorpb.EnumValueDescriptorProto {
+		return &descriptorpb.EnumValueDescriptorProto{Name: proto.String(n), Number: proto.Int32(i)}
+	}
+	fd2 := &descriptorpb.FileDescriptorProto{
+		Name: proto.String("c20.proto"), Package: proto.String("c20"), Syntax: proto.String("proto3"),
+		EnumType:    []*descriptorpb.EnumDescriptorProto{{Name: proto.String("E"), Value: []*descriptorpb.EnumValueDescriptorProto{ev("A", 0), ev("B", 2), ev("C", 5), ev("D", 9)}}},
+		MessageType: []*descriptorpb.DescriptorProto{N.m},
+	}
+	f2, err := protodesc.NewFile(fd2, nil)
+	if err != nil {
+		panic(err)
+	}
+	node2Desc, e2Desc = f2.Messages().ByName("Node"), f2.Enums().ByName("E")
+}
 
 func buildSchema() {
 	const tmsg = descriptorpb.FieldDescriptorProto_TYPE_MESSAGE
@@ -314,6 +380,8 @@ func baseEnv() starlark.StringDict {
 	return starlark.StringDict{
 		"T": sproto.MessageDescriptor{Desc: tDesc}, "Node": sproto.MessageDescriptor{Desc: nodeDesc},
 		"E": sproto.EnumDescriptor{Desc: eDesc}, "F": sproto.EnumDescriptor{Desc: fDesc}, "proto": sproto.Module,
+		"X": sproto.MessageDescriptor{Desc: xDesc}, "XF": sproto.FileDescriptor{Desc: xFile},
+		"Node2": sproto.MessageDescriptor{Desc: node2Desc}, "E2": sproto.EnumDescriptor{Desc: e2Desc},
 	}
 }
 
@@ -1165,6 +1233,7 @@ func modeProbe() {
 	selfAssign("self-assign-msgmap", "Node(mm={'a': Node(v=1)})", "m.mm = m.mm")
 	selfAssign("failed-list-assign-keeps-old", "Node(ri=[1,2,3])", "m.ri = [7, 'x']")
 	selfAssign("failed-map-assign-keeps-old", "Node(mi={'a': 1})", "m.mi = {'b': 'x'}")
+	modeProbeExtras(env, mk)
 	// a message of another type offered to a message-typed position: an error, never accepted, never a panic
 	for _, tm := range []struct{ name, src string }{
 		{"type-mismatch:r_msg=view", "t.r_msg = n.rm"},
@@ -1345,6 +1414,184 @@ func modeProbe() {
 	})
 }
 
+// xSnapshot: everything that can be read from an X message (fields, every extension, wire bytes)
+func xSnapshot(x starlark.Value) string {
+	e := with(baseEnv(), "x", x)
+	var b strings.Builder
+	for _, src := range []string{"x.v", "x.s", "proto.get_field(x, XF.ext_s)", "proto.get_field(x, XF.ext_i)", "proto.has(x, XF.ext_m)",
+		"proto.get_field(x, XF.ext_m).v", "proto.get_field(proto.get_field(x, XF.ext_m), XF.ext_s)", "list(proto.get_field(x, XF.ext_r))",
+		"[e.v for e in proto.get_field(x, XF.ext_rm)]", "proto.marshal_text(x)"} {
+		v, out, _ := eval(src, e)
+		if out == "ok" {
+			b.WriteString(v.String())
+		} else {
+			b.WriteString("<" + out + ">")
+		}
+		b.WriteString(" | ")
+	}
+	// wire bytes with a deterministic field order (proto.marshal's order varies from call to call)
+	b.WriteString(marshalBytes(x))
+	return b.String()
+}
+
+func modeProbeExtras(env starlark.StringDict, mk func(string) starlark.Value) {
+	// ---- the surface of the package: an unknown member / method means a mutation path
+	// this harness does not exercise (reported by the check as a gap of the tie)
+	var mod []string
+	for name := range sproto.Module.Members {
+		mod = append(mod, name)
+	}
+	sort.Strings(mod)
+	methods := func(v any) []string {
+		t := reflect.TypeOf(v)
+		var out []string
+		for i := 0; i < t.NumMethod(); i++ {
+			out = append(out, t.Method(i).Name)
+		}
+		return out
+	}
+	hx.Emit(map[string]any{"kind": "surface", "module": mod,
+		"Message": methods(&sproto.Message{}), "RepeatedField": methods(&sproto.RepeatedField{}), "MapField": methods(&sproto.MapField{}),
+		"repeated_attrs": (&sproto.RepeatedField{}).AttrNames()})
+
+	// ---- extensions: lossless when unfrozen
+	mkx := func() starlark.Value {
+		x := mk("X(v=1, s='s')")
+		out, msg := exec("proto.set_field(x, XF.ext_s, 'a')\nproto.set_field(x, XF.ext_i, 5)\nproto.set_field(x, XF.ext_m, X(v=2))\n"+
+			"proto.set_field(proto.get_field(x, XF.ext_m), XF.ext_s, 'n')\nproto.set_field(x, XF.ext_r, [1, 2])\nproto.set_field(x, XF.ext_rm, [X(v=3)])", with(env, "x", x))
+		if out != "ok" {
+			panic("extension setup: " + msg)
+		}
+		return x
+	}
+	for _, st := range []string{"proto.set_field(x, XF.ext_s, 'a')", "proto.set_field(x, XF.ext_i, 5)", "proto.set_field(x, XF.ext_m, X(v=2))",
+		"proto.set_field(x, XF.ext_r, [1, 2])", "proto.set_field(x, XF.ext_rm, [X(v=3)])", "proto.get_field(x, XF.ext_r)", "proto.get_field(x, XF.ext_m)", "proto.has(x, XF.ext_r)",
+		"proto.set_field(x, XF.ext_r, None)", "proto.set_field(x, XF.ext_s, 5)", "proto.set_field(x, XF.ext_m, Node())"} {
+		st := st
+		probe("ext-op:"+st, func() (string, string, bool) {
+			x := mk("X(v=1)")
+			_, out, msg := eval(st, with(env, "x", x))
+			return out, msg, false
+		})
+	}
+	probe("ext-lossless", func() (string, string, bool) {
+		x := mkx()
+		got := xSnapshot(x)
+		want := "1 | \"s\" | \"a\" | 5 | True | 2 | \"n\" | [1, 2] | [3] | "
+		if !strings.HasPrefix(got, want) {
+			return "mismatch", "extensions written are not read back: " + got, true
+		}
+		return "ok", "", false
+	})
+	// ---- every mutation path on a FROZEN extendable message (views obtained before / after the freeze)
+	type mut struct{ name, pre, stmt string }
+	muts := []mut{
+		{"attr-set", "", "x.v = 2"},
+		{"attr-clear", "", "x.s = None"},
+		{"set_field-ordinary", "", "proto.set_field(x, X.v, 2)"},
+		{"set_field-ordinary-clear", "", "proto.set_field(x, X.s, None)"},
+		{"set_field-ext-scalar", "", "proto.set_field(x, XF.ext_s, 'b')"},
+		{"set_field-ext-int", "", "proto.set_field(x, XF.ext_i, 6)"},
+		{"set_field-ext-message", "", "proto.set_field(x, XF.ext_m, X(v=9))"},
+		{"set_field-ext-repeated", "", "proto.set_field(x, XF.ext_r, [9])"},
+		{"set_field-ext-repeated-msg", "", "proto.set_field(x, XF.ext_rm, [X()])"},
+		{"set_field-ext-clear", "", "proto.set_field(x, XF.ext_s, None)"},
+		{"set_field-ext-clear-msg", "", "proto.set_field(x, XF.ext_m, None)"},
+		{"ext-view-append", "W = proto.get_field(x, XF.ext_r)", "W.append(3)"},
+		{"ext-view-setindex", "W = proto.get_field(x, XF.ext_r)", "W[0] = 7"},
+		{"ext-msg-attr-set", "W = proto.get_field(x, XF.ext_m)", "W.v = 5"},
+		{"ext-msg-set_field", "W = proto.get_field(x, XF.ext_m)", "proto.set_field(W, X.v, 5)"},
+		{"ext-msg-set_field-ext", "W = proto.get_field(x, XF.ext_m)", "proto.set_field(W, XF.ext_s, 'q')"},
+		{"ext-rm-elem-set", "W = proto.get_field(x, XF.ext_rm)[0]", "W.v = 4"},
+		{"ext-rm-elem-set_field-ext", "W = proto.get_field(x, XF.ext_rm)[0]", "proto.set_field(W, XF.ext_i, 4)"},
+		{"ext-rm-view-append", "W = proto.get_field(x, XF.ext_rm)", "W.append(X())"},
+		{"ext-rm-view-setindex", "W = proto.get_field(x, XF.ext_rm)", "W[0] = X(v=8)"},
+	}
+	for _, when := range []string{"before", "after"} {
+		for _, mu := range muts {
+			if mu.pre == "" && when == "before" {
+				continue
+			}
+			mu, when := mu, when
+			probe("frozen-path:"+when+":"+mu.name, func() (string, string, bool) {
+				x := mkx()
+				e := with(env, "x", x)
+				var w starlark.Value = starlark.None
+				get := func() (string, string) {
+					if mu.pre == "" {
+						return "ok", ""
+					}
+					v, out, msg := eval(strings.TrimPrefix(mu.pre, "W = "), e)
+					w = v
+					return out, msg
+				}
+				if when == "before" {
+					if out, msg := get(); out != "ok" {
+						return "setup-" + out, msg, false
+					}
+					x.Freeze()
+				} else {
+					x.Freeze()
+					if out, msg := get(); out != "ok" {
+						return "setup-" + out, msg, false
+					}
+				}
+				before := xSnapshot(x)
+				out, msg := exec(mu.stmt, with(e, "W", w))
+				after := xSnapshot(x)
+				return out, msg + " | " + before + " => " + after, before != after
+			})
+		}
+	}
+	// ---- look-alikes: c20.Node / c20.E declared again, differently, in another descriptor pool
+	for _, la := range []struct{ name, src string }{
+		{"lookalike:sub=", "n.sub = n2"},
+		{"lookalike:rm=[..]", "n.rm = [n2]"},
+		{"lookalike:rm.append", "n.rm.append(n2)"},
+		{"lookalike:rm[0]=", "n.rm[0] = n2"},
+		{"lookalike:mm[k]=", "n.mm['a'] = n2"},
+		{"lookalike:mm={..}", "n.mm = {'a': n2}"},
+		{"lookalike:rm=view", "n.rm = n2.rm"},
+		{"lookalike:mm=view", "n.mm = n2.mm"},
+		{"lookalike:ctor-sub", "Node(sub = n2)"},
+		{"lookalike:ctor-rm", "Node(rm = [n2])"},
+		{"lookalike:ctor-mm", "Node(mm = {'a': n2})"},
+		{"lookalike:ctor-copy", "Node(n2)"},
+		{"lookalike:set_field", "proto.set_field(n, Node.sub, n2)"},
+		{"lookalike:set_field-other-desc", "proto.set_field(n, Node2.sub, n)"},
+		{"lookalike:get_field-other-desc", "proto.get_field(n, Node2.v)"},
+		{"lookalike:reverse-sub=", "n2.sub = n"},
+		{"lookalike:enum-singular", "t.s_enum = E2.B"},
+		{"lookalike:enum-list", "t.r_enum = [E2.B]"},
+		{"lookalike:enum-append", "t.r_enum.append(E2.D)"},
+		{"lookalike:enum-mapvalue", "t.mv_enum['a'] = E2.C"},
+		{"lookalike:enum-ctor", "T(s_enum = E2.B)"},
+		{"lookalike:enum-E(..)", "E(E2.B)"},
+	} {
+		la := la
+		probe(la.name, func() (string, string, bool) {
+			n := mk("Node(v=1, rm=[Node(v=1)], mm={'a': Node(v=1)})")
+			n2 := mk("Node2(v='x', s=7, rm=[Node2(v='y')], mm={'a': Node2(v='z')})")
+			t := mk("T(r_enum=[E.A], mv_enum={'a': E.A})")
+			out, msg := exec(la.src, with(env, "n", n, "n2", n2, "t", t))
+			if out == "ok" {
+				// accepted: re-check the typed invariant by reading everything back and marshalling
+				detail := "ACCEPTED; "
+				func() {
+					defer func() {
+						if e := recover(); e != nil {
+							detail += fmt.Sprint("reading back panics: ", e)
+						}
+					}()
+					detail += "reads back " + func() string { b, _ := json.Marshal(dump(n, 0)); return string(b) }()
+				}()
+				return out, detail, true
+			}
+			return out, msg, false
+		})
+	}
+}
+
 func main() {
 	mode := flag.String("mode", "scalar", "")
 	seed := flag.Uint64("seed", 1, "")
@@ -1354,6 +1601,7 @@ func main() {
 	file := flag.String("file", "", "")
 	flag.Parse()
 	buildSchema()
+	buildExtras()
 	defer hx.Flush()
 	switch *mode {
 	case "scalar":
